@@ -449,9 +449,9 @@ package argmapper
 //@ axiom a-hash-out: forall(t, string, s, string, u, string, r, string, imp(sprintf2("out: %s/%s", box(t), box(s)) == sprintf2("out: %s/%s", box(u), box(r)), t == u && s == r))
 //@ axiom a-hash-disjoint: forall(n, string, t, string, s, string, u, string, r, string, sprintf3("%s/%s/%s", box(n), box(t), box(s)) != sprintf2("arg: %s/%s", box(u), box(r)) && sprintf3("%s/%s/%s", box(n), box(t), box(s)) != sprintf2("out: %s/%s", box(u), box(r)) && sprintf2("arg: %s/%s", box(t), box(s)) != sprintf2("out: %s/%s", box(u), box(r)))
 // dynamic dispatch of Hashcode: linked to the verified method bodies below
-//@ axiom hcm-value: forall(v, *valueVertex, graph.hcm(box(v)) == hashV(v.Name, v.Type, v.Subtype))
-//@ axiom hcm-arg: forall(v, *typedArgVertex, graph.hcm(box(v)) == hashA(v.Type, v.Subtype))
-//@ axiom hcm-out: forall(v, *typedOutputVertex, graph.hcm(box(v)) == hashO(v.Type, v.Subtype))
+//@ axiom hcm-value: forall(v, *valueVertex, hcm(box(v)) == hashV(v.Name, v.Type, v.Subtype))
+//@ axiom hcm-arg: forall(v, *typedArgVertex, hcm(box(v)) == hashA(v.Type, v.Subtype))
+//@ axiom hcm-out: forall(v, *typedOutputVertex, hcm(box(v)) == hashO(v.Type, v.Subtype))
 
 //@ func (*valueVertex).Hashcode
 //@   requires v.Type != nil
